@@ -228,6 +228,8 @@ Definition run_c16_builder (args : list sx) : sx :=
     ret (L (map sx_btrace (brun nm acts).(b_calls)))
   | _ => None end).
 
-Definition c16_table : list (bytes * (list sx -> sx)) :=
+(* the scripted (one action per critical section) kinds; C16_Conc.v adds the kinds that
+   judge free-running observations and the two-step builder, and defines c16_table *)
+Definition c16_seq_table : list (bytes * (list sx -> sx)) :=
   [ (bs "c16.tracer", run_c16_tracer);
     (bs "c16.builder", run_c16_builder) ].
